@@ -27,7 +27,7 @@ ok = meta['demo_clean_exit'] == 0 and meta['demo_patched_exit'] != 0 and meta['e
 meta['confirmed'] = ok
 print(json.dumps({k_: v for k_, v in meta.items() if k_ != 'needs'}, indent=1))
 if ok:
-    dst = os.path.join(here, 'seeded', '%s-%s' % (check_id, k))
+    dst = os.path.join(here, 'seeded', '%s-%s%s' % (check_id, os.environ.get('SEED_ROUND', ''), k))
     os.makedirs(dst, exist_ok=True)
     for f in ('patch.diff', 'demo.py', 'notes.txt'):
         shutil.copy(os.path.join(src, f), dst)
